@@ -177,6 +177,11 @@ sb_error_t sb_trajectory_init_from_binary_file_in_memory(
 
 sb_error_t sb_i_trajectory_init_from_bytes(sb_trajectory_t* trajectory, uint8_t* buf, size_t nbytes, sb_bool_t owned)
 {
+    /* the header (scale + flags, start position and yaw) takes 9 bytes */
+    if (nbytes < 9) {
+        return SB_EPARSE;
+    }
+
     if (owned) {
         SB_CHECK(sb_buffer_init_from_bytes(&trajectory->buffer, buf, nbytes));
     } else {
